@@ -67,7 +67,7 @@ def dense_py(cx, skel_runs, genome, prefix):
 RUNSETS = {"g1": [[], [0], [0, 0]], "g2": [[0], [1], [0, 1], [0, 0, 1]], "g3": [[0, 2], [1], [0, 1, 2]], "g1b": [[0, 0, 0]]}
 
 UNARY = ("to_dict", "sum", "add_scalar", "mul3", "lt_scalar", "eq_scalar", "neg_mask", "roundtrip", "mask_roundtrip",
-         "rsub_scalar", "rlt_scalar", "float_dense", "iv_pileup", "iv_mask", "iv_pileup_sub", "iv_pileup_neg", "float_close_mul2", "bool_bedgraph_not")
+         "rsub_scalar", "rlt_scalar", "float_dense", "iv_pileup", "iv_mask", "iv_pileup_sub", "iv_pileup_neg", "float_close_mul2", "bool_bedgraph_not", "iv_mask_not")
 CLOSE = [0.75, 0.750001, 2e-9]   # doubles that differ by less than np.isclose's tolerances (from each other / from 0): they are still different values
 FLOATS = [0.7, 0.1, 2.5]      # values of the float track (record i carries FLOATS[i]): a larger value followed by smaller non-dyadic ones
 BINARY = ("add", "sub", "lt", "and", "or")
@@ -95,6 +95,10 @@ class Track(Harness):
             for g, ra, rb in (("g1", [0], [0]), ("g2", [0], [1]), ("g2", [1], [1])):
                 for op in BINARY:
                     out.append(dict(genome=g, a=ra, b=rb, op=op))
+            # interval sets that are NOT grouped by chromosome (chr1, chr2, chr1) and the empty set on a two-chromosome genome
+            for runs in ([0, 1, 0], [1, 0, 1], []):
+                for op in ("iv_pileup", "iv_mask", "iv_mask_not"):
+                    out.append(dict(genome="g2", a=runs, b=None, op=op))
             return out
         for g in ["g1", "g2", "g3", "g1b"]:
             for runs in RUNSETS[g]:
@@ -120,8 +124,9 @@ class Track(Harness):
     def call(self, skel, x, ctx):
         import numpy as np
         genome = GENOMES[skel["genome"]]
-        A = make_track(ctx, x, skel["a"], genome, "a")
         op = skel["op"]
+        # the interval-set operations do not build the bedGraph track (their sets need not be in genome order)
+        A = make_track(ctx, x, skel["a"], genome, "a") if not op.startswith("iv_") else None
         dd = lambda t: {k: ctx.lst(v) for k, v in t.to_dict().items()}
         if op == "to_dict":
             return dict(dense=dd(A))
@@ -164,7 +169,7 @@ class Track(Harness):
                           ctx.arr([x[f"ae{i}"] for i in range(n)], "int64"), ctx.arr([x[f"av{i}"] for i in range(n)], "int64") > 0)
             Bt = GenomicArray.from_bedgraph(bg, bnp.Genome.from_dict(dict(genome))._genome_context)
             return dict(dense=dd(~Bt), track=dd(Bt))
-        if op in ("iv_pileup", "iv_mask", "iv_pileup_sub", "iv_pileup_neg"):
+        if op in ("iv_pileup", "iv_mask", "iv_pileup_sub", "iv_pileup_neg", "iv_mask_not"):
             # the array built from INTERVALS (the records' boundaries, values ignored): touching intervals give equal neighbouring depths
             import bionumpy as bnp
             from bionumpy.datatypes import Interval
@@ -172,7 +177,10 @@ class Track(Harness):
             g = bnp.Genome.from_dict(dict(genome))
             gi = g.get_intervals(Interval([names[c] for c in skel["a"]], ctx.arr([x[f"as{i}"] for i in range(n)], "int64"),
                                           ctx.arr([x[f"ae{i}"] for i in range(n)], "int64")))
-            R = gi.get_mask() if op == "iv_mask" else gi.get_pileup()
+            R = gi.get_mask() if op in ("iv_mask", "iv_mask_not") else gi.get_pileup()
+            if op == "iv_mask_not":
+                R = ~R             # the complement: True exactly on the bases no interval covers; its sum counts them
+                return dict(dense=dd(R), total=ctx.lst(R.sum()))
             if op == "iv_pileup_sub":
                 R = R - k          # depth minus a scalar: negative where the depth is smaller (a signed result)
             elif op == "iv_pileup_neg":
@@ -271,16 +279,19 @@ class Track(Harness):
             neg = {nm: [z3.Not(t > 0) for t in a[nm]] for nm in names}
             ok = cmp_dense(out["track"], pos, True) and cmp_dense(out["dense"], neg, True)
             return z_and(conj) if ok else False
-        if op in ("iv_pileup", "iv_mask", "iv_pileup_sub", "iv_pileup_neg"):
+        if op in ("iv_pileup", "iv_mask", "iv_pileup_sub", "iv_pileup_neg", "iv_mask_not"):
             exp = {}
             for ci, nm in enumerate(names):
                 col = []
                 for p in range(genome[nm]):
                     cov = [z3.And(x[f"as{i}"].t <= p, p < x[f"ae{i}"].t) for i, c in enumerate(skel["a"]) if c == ci]
                     depth = sum([z3.If(c, 1, 0) for c in cov], z3.IntVal(0))
-                    col.append(z_or(cov) if op == "iv_mask" else (depth - k if op == "iv_pileup_sub" else (-depth if op == "iv_pileup_neg" else depth)))
+                    col.append(z_or(cov) if op == "iv_mask" else (z3.Not(z_or(cov)) if op == "iv_mask_not" else
+                                                                   (depth - k if op == "iv_pileup_sub" else (-depth if op == "iv_pileup_neg" else depth))))
                 exp[nm] = col
-            return z_and(conj) if cmp_dense(out["dense"], exp, op == "iv_mask") else False
+            if op == "iv_mask_not":
+                conj.append(TI(out["total"]) == sum([z3.If(t, 1, 0) for nm in names for t in exp[nm]], z3.IntVal(0)))
+            return z_and(conj) if cmp_dense(out["dense"], exp, op in ("iv_mask", "iv_mask_not")) else False
         fn = {"to_dict": (lambda u, v: u, False), "add": (lambda u, v: u + v, False), "sub": (lambda u, v: u - v, False),
               "lt": (lambda u, v: u < v, True), "and": (lambda u, v: z3.And(u > 0, v > 0), True),
               "or": (lambda u, v: z3.Or(u > 0, v > 0), True), "add_scalar": (lambda u, v: u + k, False),
@@ -342,6 +353,15 @@ class Track(Harness):
             gn = {nm: [bool(v) for v in col] for nm, col in cout["dense"].items()}      # truth value of every base of ~track
             if gt != pos or gn != neg:
                 return f"track from a bedGraph with boolean values {recs('a', skel['a'])} ({desc}): track {cout['track']}, ~track {cout['dense']}; expected the truth values {pos} and {neg}"
+            return None
+        if op == "iv_mask_not":
+            exp = {nm: [not any(c == ci and cx[f"as{i}"] <= p < cx[f"ae{i}"] for i, c in enumerate(skel["a"])) for p in range(genome[nm])]
+                   for ci, nm in enumerate(names)}
+            got = {nm: [bool(v) for v in col] for nm, col in cout["dense"].items()}
+            tot = sum(sum(col) for col in exp.values())
+            ivs_ = [(r[0], r[1], r[2]) for r in recs('a', skel['a'])]
+            if got != exp or int(cout["total"]) != tot:
+                return f"complement of the mask of intervals {ivs_} on {genome}: ~mask {cout['dense']} with sum {cout['total']}, expected {exp} with sum {tot}"
             return None
         if op in ("iv_pileup", "iv_mask", "iv_pileup_sub", "iv_pileup_neg"):
             exp = {}
